@@ -14,6 +14,8 @@ import (
 	"fmt"
 	"math/rand"
 	"net"
+	"os"
+	"runtime"
 	"sort"
 	"strings"
 	"sync"
@@ -113,7 +115,7 @@ func genTopo(rng *rand.Rand, idx int) *mTopo {
 	reuseRackNames := rng.Intn(2) == 0
 	twoDisk := rng.Intn(3) // 0: hdd only, 1: mixed, 2: every server both
 	ecHeavy := rng.Intn(3) == 0
-	tight := rng.Intn(3) == 0 // most servers full
+	tight := rng.Intn(5) == 0 // most servers full
 	redoShare := 0
 	if t.Mode == "heartbeat" && rng.Intn(4) == 0 {
 		redoShare = 2 + rng.Intn(3)
@@ -609,8 +611,14 @@ func (c *checker) judge(cl *call, topo *topology.Topology, byId map[string]*mSer
 					ecOnServer = "yes"
 				}
 			}
-			r.Violation(sig("no-free-slot", "accounting", acc, "reregistration", redo, "build", cl.Topo.Mode, "ec_on_server", ecOnServer),
-				map[string]interface{}{"call": cl, "server": s, "free_by_model": s.freeSlots(cl.Disk), "master_counters": topology.VerifUsage(servers[i])})
+			if !r.Violation(sig("no-free-slot", "accounting", acc, "reregistration", redo, "build", cl.Topo.Mode, "ec_on_server", ecOnServer),
+				map[string]interface{}{"call": cl, "server": s, "free_by_model": s.freeSlots(cl.Disk), "master_counters": topology.VerifUsage(servers[i])}) {
+				r.Count("known_finding_hits", 1)
+				if r.Replay != "" {
+					r.Count("replay_known_hits", 1)
+					fmt.Printf("replay: known finding reproduced: server %s free_by_model=%d master_counters=%+v\n", s.id(), s.freeSlots(cl.Disk), topology.VerifUsage(servers[i]))
+				}
+			}
 			return
 		}
 	}
@@ -763,11 +771,14 @@ func (c *checker) growPath(rng *rand.Rand, n int) {
 		}
 		for j, s := range t.Servers {
 			// loopback addresses all reach the stub
-			s.Ip = fmt.Sprintf("127.%d.%d.%d", 1+i%200, 1+j/200, 1+j%200)
+			s.Ip = fmt.Sprintf("127.0.1.%d", 1+j) // the same 12 addresses for every topology: cached gRPC connections are reused
 			s.Port = port
 		}
 		topo, byId := build(t)
 		topo.RaftServer = &stubRaft{topo: topo}
+		stub.mu.Lock()
+		stub.calls = make(map[uint32]int) // volume ids start over in every topology
+		stub.mu.Unlock()
 		for k := 0; k < 6; k++ {
 			rpS := fmt.Sprintf("%d%d%d", rng.Intn(3), rng.Intn(3), rng.Intn(3))
 			if k < 3 {
@@ -780,6 +791,9 @@ func (c *checker) growPath(rng *rand.Rand, n int) {
 			}
 			ps := prefsFor(rng, t)
 			p := ps[rng.Intn(len(ps))]
+			if rng.Intn(2) == 0 {
+				p = ps[0] // no preference
+			}
 			cl := &call{Topo: t, Rp: rpS, Disk: disk, Pref: p, Seed: rng.Int63()}
 			r.Case(map[string]interface{}{"grow_path": cl})
 			opt := &topology.VolumeGrowOption{ReplicaPlacement: rp, DiskType: types.ToDiskType(disk), Collection: "grown",
@@ -857,6 +871,7 @@ func main() {
 	r.Assume("'honouring a requested data center / rack / server' = some decomposition of the result into main data center / main rack has the requested ones as the main ones and contains the requested server in the main rack")
 	r.Assume("an error is never a violation (the statement does not promise completeness); server lists returned together with an error are unused by the caller and ignored")
 	c := &checker{r: r, vg: topology.NewDefaultVolumeGrowth()}
+	runtime.GOMAXPROCS(2) // single-threaded driver on a shared machine
 
 	if r.Replay != "" {
 		var d struct {
@@ -871,15 +886,27 @@ func main() {
 		if cl.Topo == nil {
 			r.Must(fmt.Errorf("replay file has no topology"), "replay")
 		}
-		cl.Result, cl.Err = nil, ""
-		topo, byId := build(cl.Topo)
-		c.runCall(cl, topo, byId)
-		fmt.Printf("replay result: servers=%v err=%q\n", cl.Result, cl.Err)
+		// the code under test iterates Go maps (children, ec shards), so one input can
+		// behave differently from run to run: rebuild and call repeatedly
+		for i := 0; i < 60 && r.Violations() == 0 && r.Counter("replay_known_hits") == 0; i++ {
+			cl.Result, cl.Err = nil, ""
+			topo, byId := build(cl.Topo)
+			c.runCall(cl, topo, byId)
+			fmt.Printf("replay attempt %d: servers=%v err=%q\n", i, cl.Result, cl.Err)
+		}
 		r.Finish(0)
 	}
 
-	nTopo := r.Pick(300, 5000)
-	nSeeds := r.Pick(30, 30)
+	// the code under test logs every failed pick through glog to stderr (hundreds of
+	// thousands of lines); none of it is evidence, so it is dropped for this driver
+	if devnull, err := os.OpenFile(os.DevNull, os.O_WRONLY, 0); err == nil {
+		os.Stderr = devnull
+	}
+	nTopo := r.Pick(300, 1200)
+	if os.Getenv("C10_GROW_ONLY") != "" {
+		nTopo = 20 // development aid: mostly the grow path
+	}
+	nSeeds := r.Pick(10, 12)
 	rng := r.SubRng("c10-topologies")
 	rps := allRps()
 	for ti := 0; ti < nTopo; ti++ {
@@ -896,10 +923,16 @@ func main() {
 				okBefore := r.Counter("successes")
 				var last *call
 				diskOfKey := ""
+				x, y, z := int(rpS[0]-'0'), int(rpS[1]-'0'), int(rpS[2]-'0')
+				exists := map[string]bool{"": legalSetExists(t, x, y, z, "", p), "ssd": legalSetExists(t, x, y, z, "ssd", p)}
 				for s := 0; s < nSeeds; s++ {
 					disk := ""
 					if s%3 == 2 {
 						disk = "ssd"
+					}
+					if !exists[disk] && s >= 5 {
+						// nothing legal exists: a few seeds are enough to see whether something is returned anyway
+						continue
 					}
 					cl := &call{Topo: t, Rp: rpS, Disk: disk, Pref: p, Seed: int64(ti)*1000003 + int64(s)*7919 + r.Seed}
 					c.runCall(cl, topo, byId)
@@ -921,7 +954,7 @@ func main() {
 		}
 	}
 
-	if r.Thorough() {
+	if r.Thorough() || os.Getenv("C10_GROW_ONLY") != "" {
 		c.growPath(r.SubRng("c10-grow"), 150)
 	}
 
